@@ -631,6 +631,142 @@ def implicit_reads(cls, meth_name, argpos=1):
     return res
 
 
+# --------------------------------------------------------------------------
+# how a transpiled method USES its array arguments, where that constrains the
+# C type of the property
+
+# C element types of the carray classes (carray.<Class>().get_c_type())
+CTYPES = ('int', 'unsigned int', 'long', 'float', 'double')
+INTEGRAL_CTYPES = ('int', 'unsigned int', 'long')
+# types accepted by compyle's declare() that make a local an integer
+_INT_DECL = {'int', 'uint', 'long', 'ulong', 'unsigned int', 'unsigned long',
+             'short', 'ushort', 'char', 'uchar', 'size_t', 'long long',
+             'unsigned short', 'unsigned char'}
+_INDEX_CACHE = {}
+
+
+def _is_array_arg(name):
+    return (name.startswith('d_') or name.startswith('s_')) and \
+        name not in ('d_idx', 's_idx')
+
+
+def index_uses_of_source(src, what='<source>'):
+    """names of the `d_*` / `s_*` array arguments of the function in `src`
+    an ELEMENT of which is used where the generated Cython needs an integer:
+
+      * inside the subscript of another array access   d_p[d_orig_idx[d_idx]]
+      * as an argument of range()                      range(d_n[d_idx])
+      * assigned (=, +=, ...) to a local that the method declares with an
+        integer C type                                 idx = declare('int');
+                                                       idx = d_orig_idx[d_idx]
+
+    (through + - * // % and unary operators, conditional expressions and
+    parentheses).  `cast(expr, '<type>')` and any other call is a boundary:
+    what is inside does not constrain the element type.  This is what compyle
+    does with the known types of get_known_types_for_arrays: the argument
+    becomes `<c type>* d_name`, a local declared by `declare('int')` becomes
+    `cdef int`, every other assigned local `cdef double`; Cython then rejects
+    `int = double` and a double subscript.
+
+    An array argument that is bound to another name (alias) would escape
+    this scan: that makes the translator fail."""
+    fn = ast.parse(textwrap.dedent(src)).body[0]
+    if not isinstance(fn, ast.FunctionDef):
+        raise TranslatorError('%s: not a function' % what)
+    args = [a.arg for a in fn.args.args]
+    arrs = set(a for a in args if _is_array_arg(a))
+    int_locals = set()
+    for n in ast.walk(fn):
+        if isinstance(n, ast.Assign) and isinstance(n.value, ast.Call) and \
+                isinstance(n.value.func, ast.Name) and \
+                n.value.func.id == 'declare' and n.value.args and \
+                isinstance(n.value.args[0], ast.Constant) and \
+                isinstance(n.value.args[0].value, str):
+            ty = n.value.args[0].value.strip()
+            if ty in _INT_DECL:
+                for t in n.targets:
+                    for m in ([t] if isinstance(t, ast.Name) else
+                              getattr(t, 'elts', [])):
+                        if isinstance(m, ast.Name):
+                            int_locals.add(m.id)
+    used = set()
+
+    def elements(expr):
+        """array arguments whose element appears in `expr` outside any call"""
+        if isinstance(expr, ast.Subscript):
+            if isinstance(expr.value, ast.Name) and expr.value.id in arrs:
+                used.add(expr.value.id)
+            # (its own subscript is visited as a Subscript in its own right)
+        elif isinstance(expr, ast.BinOp):
+            elements(expr.left)
+            elements(expr.right)
+        elif isinstance(expr, ast.UnaryOp):
+            elements(expr.operand)
+        elif isinstance(expr, ast.IfExp):
+            elements(expr.body)
+            elements(expr.orelse)
+        elif isinstance(expr, (ast.Tuple, ast.Slice)):
+            for c in ast.iter_child_nodes(expr):
+                if isinstance(c, ast.expr):
+                    elements(c)
+        # Call (cast, floor, ...), Name, Constant, Attribute: boundary
+
+    parents = {}
+    for n in ast.walk(fn):
+        for c in ast.iter_child_nodes(n):
+            parents[c] = n
+    for n in ast.walk(fn):
+        if isinstance(n, ast.Subscript):
+            elements(n.slice)
+        elif isinstance(n, ast.Call) and isinstance(n.func, ast.Name) and \
+                n.func.id == 'range':
+            for x in n.args:
+                elements(x)
+        elif isinstance(n, (ast.Assign, ast.AugAssign)):
+            tg = n.targets if isinstance(n, ast.Assign) else [n.target]
+            if any(isinstance(t, ast.Name) and t.id in int_locals
+                   for t in tg):
+                elements(n.value)
+        if isinstance(n, ast.Name) and n.id in arrs and \
+                isinstance(n.ctx, ast.Load):
+            par = parents.get(n)
+            ok = (isinstance(par, ast.Subscript) and par.value is n) or \
+                (isinstance(par, ast.Call) and (n in par.args or any(
+                    k.value is n for k in par.keywords)))
+            if not ok:
+                raise TranslatorError(
+                    '%s: array argument %s is used other than by subscript '
+                    'or as a call argument (line %d): the index-use scan '
+                    'cannot follow it' % (what, n.id, n.lineno))
+        if isinstance(n, (ast.Name,)) and n.id in arrs and \
+                isinstance(n.ctx, ast.Store):
+            raise TranslatorError('%s: array argument %s is rebound'
+                                  % (what, n.id))
+    return sorted(used)
+
+
+def index_uses(cls, meth_name):
+    key = (cls, meth_name)
+    if key not in _INDEX_CACHE:
+        meth = getattr(cls, meth_name)
+        _INDEX_CACHE[key] = index_uses_of_source(
+            inspect.getsource(meth), '%s.%s' % (cls.__name__, meth_name))
+    return _INDEX_CACHE[key]
+
+
+def array_types(pa):
+    """{name: (c type, stride)} of every property and constant"""
+    out = {}
+    for coll in (pa.properties, pa.constants):
+        for n, arr in coll.items():
+            ct = arr.get_c_type()
+            if ct not in CTYPES:
+                raise TranslatorError('array %s.%s has the C type %r, not one '
+                                      'of %s' % (pa.name, n, ct, CTYPES))
+            out[n] = (ct, int(pa.stride.get(n, 1)))
+    return out
+
+
 def flatten_groups(equations):
     """-> list of stages, each a list of (group path, equation object)"""
     from pysph.sph.equation import Group, MultiStageEquations
@@ -663,7 +799,12 @@ def describe_equation(eq):
     for h in IMPLICIT_EQ:
         if hasattr(eq, h):
             implicit += implicit_reads(type(eq), h)
+    idx = set()
+    for h in hooks:
+        idx.update(index_uses(type(eq), h))
     return {
+        'index_d': sorted(x[2:] for x in idx if x.startswith('d_')),
+        'index_s': sorted(x[2:] for x in idx if x.startswith('s_')),
         'cls': type(eq).__name__,
         'module': type(eq).__module__,
         'dest': eq.dest,
@@ -676,13 +817,15 @@ def describe_equation(eq):
 def describe_stepper(array, st):
     meths = OrderedDict()
     implicit = []
+    idx = set()
     for x in dir(st):
         if x.startswith('py_stage'):
             implicit += implicit_reads(type(st), x)
         elif x.startswith('stage') or x == 'initialize':
             meths[x] = [a for a in _args_of(getattr(st, x)) if a != 'self']
+            idx.update(a[2:] for a in index_uses(type(st), x))
     return {'array': array, 'cls': type(st).__name__, 'methods': meths,
-            'implicit': sorted(set(implicit))}
+            'implicit': sorted(set(implicit)), 'index': sorted(idx)}
 
 
 def extract(name, digits):
@@ -694,7 +837,8 @@ def extract(name, digits):
         'digits': list(digits),
         'arrays': [
             {'name': pa.name, 'props': sorted(pa.properties.keys()),
-             'consts': sorted(pa.constants.keys())} for pa in particles],
+             'consts': sorted(pa.constants.keys()),
+             'types': array_types(pa)} for pa in particles],
         'equations': [describe_equation(eq) for st in stages for _, eq in st],
         'nstages': len(stages),
     }
@@ -808,6 +952,8 @@ def build_tables(allrecs, pre):
                     names.update(x[2:] for x in args
                                  if is_arr(x, 'd_') or is_arr(x, 's_'))
                 names.update(e['implicit'])
+                names.update(e['index_d'])
+                names.update(e['index_s'])
             for st in r['steppers']:
                 for args in st['methods'].values():
                     names.update(x[2:] for x in args
@@ -846,14 +992,23 @@ def build_tables(allrecs, pre):
             for h, args in e['hooks'].items())
         loop = e['hooks'].get('loop', [])
         return eqkinds((e['cls'], hooks, pmask(a for a in loop if a in pre),
-                        mask(e['implicit'])))
+                        mask(e['implicit']), mask(e['index_d']),
+                        mask(e['index_s'])))
 
     def stepkind(st):
         meths = tuple(
             (m, mask(x[2:] for x in args
                      if is_arr(x, 'd_') or is_arr(x, 's_')))
             for m, args in st['methods'].items())
-        return stepkinds((st['cls'], meths, mask(st['implicit'])))
+        return stepkinds((st['cls'], meths, mask(st['implicit']),
+                          mask(st['index'])))
+
+    def types_of(a):
+        ty = a['types']
+        return tuple(mask(n for n, (ct, _) in ty.items() if ct == c)
+                     for c in CTYPES) + (
+            tuple(sorted((props(n), sd) for n, (_, sd) in ty.items()
+                         if sd != 1)),)
 
     for sname, recs in allrecs.items():
         ids = []
@@ -877,7 +1032,8 @@ def build_tables(allrecs, pre):
                 for e in r['equations'])
             sts = tuple((stepkind(st), aidx.get(st['array'], NOARR))
                         for st in r['steppers'])
-            ids.append(bodies((arrays, eqs, sts)))
+            types = tuple(types_of(a) for a in r['arrays'])
+            ids.append(bodies((arrays, eqs, sts, types)))
         per_scheme[sname] = ids
     return {
         'props': props.items(), 'presyms': presym.items(), 'pre': pre,
@@ -908,7 +1064,11 @@ def emit_lean(T):
     w('sets of names are Nat bit masks.  `bodies` are the distinct results of')
     w('running configure / configure_solver / setup_properties / get_equations;')
     w('each scheme lists one body index per point of its option grid, in')
-    w('mixed-radix order over `axes` (first axis most significant).')
+    w('mixed-radix order over `axes` (first axis most significant).  The last')
+    w('component of a body gives, per array, the names of C type int / unsigned')
+    w('int / long / float / double and the strides other than 1; the last')
+    w('components of an equation / stepper kind the array arguments an element')
+    w('of which is used as an index.')
     w('-/')
     w('import PysphVerif.Model.SchemeNeeds')
     w('namespace PysphVerif.Gen.Schemes')
@@ -927,29 +1087,33 @@ def emit_lean(T):
     w('')
     w('def eqKinds : List EqKind := [')
     rows = []
-    for cls, hooks, lp, imp in T['eqkinds']:
+    for cls, hooks, lp, imp, ixd, ixs in T['eqkinds']:
         hs = _llist('⟨%d, %d, %d⟩' % h for h in hooks)
-        rows.append('  ⟨%s, %s, %d, %d⟩' % (_lstr(cls), hs, lp, imp))
+        rows.append('  ⟨%s, %s, %d, %d, %d, %d⟩' % (_lstr(cls), hs, lp, imp,
+                                                    ixd, ixs))
     w(',\n'.join(rows))
     w(']')
     w('')
     w('def stepKinds : List StepKind := [')
     rows = []
-    for cls, meths, imp in T['stepkinds']:
+    for cls, meths, imp, ix in T['stepkinds']:
         ms = _llist('(%s, %d)' % (_lstr(m), k) for m, k in meths)
-        rows.append('  ⟨%s, %s, %d⟩' % (_lstr(cls), ms, imp))
+        rows.append('  ⟨%s, %s, %d, %d⟩' % (_lstr(cls), ms, imp, ix))
     w(',\n'.join(rows))
     w(']')
     w('')
     w('def bodies : List Body := [')
     rows = []
-    for arrays, eqs, sts in T['bodies']:
+    for arrays, eqs, sts, types in T['bodies']:
         a = _llist('(%d, %d)' % x for x in arrays)
+        ty = _llist('⟨%d, %d, %d, %d, %d, %s⟩' % (
+            t[0], t[1], t[2], t[3], t[4],
+            _llist('(%d, %d)' % x for x in t[5])) for t in types)
         e = _llist('⟨%d, %d, %s⟩' % (
             k, d, 'none' if s is None else 'some ' + _llist(str(x) for x in s))
             for k, d, s in eqs)
         s = _llist('(%d, %d)' % x for x in sts)
-        rows.append('  ⟨%s,\n   %s,\n   %s⟩' % (a, e, s))
+        rows.append('  ⟨%s,\n   %s,\n   %s,\n   %s⟩' % (a, e, s, ty))
     w(',\n'.join(rows))
     w(']')
     w('')
